@@ -76,3 +76,11 @@ where
         ErasedCutoff::new(self)
     }
 }
+
+#[cfg(cormacrelf_incremental_rs_verif)]
+impl ErasedCutoff {
+    /// verification hook: cutoffs are type-erased closures, so the dump can only say "some cutoff"
+    pub(crate) fn verif_name(&self) -> &'static str {
+        "c"
+    }
+}
